@@ -287,6 +287,30 @@ pub fn run_case(case: &mut Case) {
                 break;
             }
         };
+        // every eighth sentence: whole values that are empty or contain blanks, in any
+        // spelling (`--name=`, `-n=`, `--name ""`): the item is present, its value is that text
+        let mut d = d;
+        if si % 8 == 5 {
+            let mut items = Vec::new();
+            spec.root.all_items(&mut items);
+            let mut swaps: Vec<(Vec<u8>, Vec<u8>)> = Vec::new();
+            crate::deriv::for_each_value_mut(&mut d.atoms, &mut |id, is_arg, value| {
+                let stringy = items
+                    .iter()
+                    .find(|i| i.id == id)
+                    .and_then(|i| i.ty())
+                    .map_or(false, |t| !t.is_num());
+                if is_arg && stringy && rng.chance(1, 2) {
+                    // (values containing `=` in a cluster are C02's finding F05)
+                    let new = rng.pick(&[&b""[..], b" ", b"", b"x y"]).to_vec();
+                    swaps.push((value.clone(), new.clone()));
+                    *value = new;
+                }
+            });
+            for (old, new) in swaps {
+                subst_bytes(&mut d.value, &old, &new);
+            }
+        }
         let units = match order_units(&d.atoms, &mut rng, OrderStyle::Random, DashDash::Random) {
             Some(u) => u,
             None => continue,
